@@ -838,3 +838,79 @@ def g8(ctx):
                               ('drops ' + ', '.join(missing)) if missing else ('binds ' + ', '.join(wrong))),
                           mod.loc(c))
     ctx.require(n >= 2, 'only %d decorator-factory partials found' % n)
+
+
+# test recognised in the dispatch chain -> (entry class it must select, why that class suits the family)
+N5_TABLE = [
+    ('is_structseq_class', 'StructSequenceEntry', 'struct sequence: fields by index, named through n_sequence_fields'),
+    ('is_namedtuple_class', 'NamedTupleEntry', 'namedtuple: fields by index, named through _fields'),
+    ('dataclasses.is_dataclass', 'DataclassEntry', 'dataclass: children are attributes named by init fields'),
+    ('issubclass:Mapping', 'MappingEntry', 'a mapping is read with obj[key]'),
+    ('issubclass:Sequence', 'SequenceEntry', 'a sequence is read with obj[index]'),
+]
+# the specific families are tuples (hence Sequences): their tests must come first
+N5_BEFORE = [('is_structseq_class', 'issubclass:Sequence'), ('is_namedtuple_class', 'issubclass:Sequence'),
+             ('dataclasses.is_dataclass', 'issubclass:Mapping'), ('dataclasses.is_dataclass', 'issubclass:Sequence')]
+
+
+@rule('N5', floor=6, title='AutoEntry selects, for a custom node type, the entry class whose access method suits the type')
+def n5(ctx):
+    pkg = ctx.py()
+    mod = pkg.mod('optree.accessor')
+    fn = mod.funcs.get('AutoEntry.__new__')
+    ctx.require(fn is not None, 'AutoEntry.__new__ not found')
+    a = fn.args
+    pnames = [x.arg for x in a.posonlyargs + a.args]
+    ctx.require(len(pnames) >= 4, 'AutoEntry.__new__: parameters not recognised')
+    tparam = pnames[2]          # (cls, entry, type, kind)
+    # the dispatch chain: an if / elif chain whose every arm assigns one name from an entry class
+    chain = None
+    for s_ in walk(fn):
+        if isinstance(s_, ast.If):
+            arms = []
+            cur = s_
+            ok = True
+            while True:
+                if len(cur.body) == 1 and isinstance(cur.body[0], ast.Assign) and \
+                        isinstance(cur.body[0].value, ast.Name):
+                    arms.append((cur.test, cur.body[0].targets[0], cur.body[0].value.id))
+                else:
+                    ok = False
+                    break
+                if len(cur.orelse) == 1 and isinstance(cur.orelse[0], ast.If):
+                    cur = cur.orelse[0]
+                    continue
+                if len(cur.orelse) == 1 and isinstance(cur.orelse[0], ast.Assign) and \
+                        isinstance(cur.orelse[0].value, ast.Name):
+                    arms.append((None, cur.orelse[0].targets[0], cur.orelse[0].value.id))
+                break
+            if ok and len(arms) >= 4 and (chain is None or len(arms) > len(chain)):
+                chain = arms
+    ctx.require(chain is not None, 'AutoEntry.__new__: dispatch chain not recognised')
+
+    def test_id(t):
+        if t is None:
+            return 'else'
+        if isinstance(t, ast.Call) and len(t.args) >= 1 and is_name(t.args[0], tparam):
+            cn = call_name(t)
+            if cn == 'issubclass' and len(t.args) == 2:
+                return 'issubclass:' + src(t.args[1])
+            return cn
+        return src(t)
+    got = [(test_id(t), cls_) for t, _, cls_ in chain]
+    order = [g[0] for g in got]
+    for tid, want, why in N5_TABLE:
+        sel = [c for t, c in got if t == tid]
+        ctx.check('AutoEntry/%s' % tid, sel == [want],
+                  'AutoEntry: %s(type) selects %s (%s)' % (tid, want, why),
+                  'AutoEntry: %s(type) selects %s, not %s (%s): the accessor of such a node reads the '
+                  'child the wrong way' % (tid, sel or 'nothing', want, why), mod.loc(fn))
+    ctx.check('AutoEntry/fallback', got[-1] == ('else', 'FlattenedEntry'),
+              'AutoEntry: any other type gets FlattenedEntry (no access method is claimed)',
+              'AutoEntry: the fallback arm is %s' % (got[-1],), mod.loc(fn))
+    viol = [(a_, b_) for a_, b_ in N5_BEFORE if a_ in order and b_ in order and order.index(a_) > order.index(b_)]
+    ctx.check('AutoEntry/specific-first', not viol,
+              'AutoEntry tests the specific families (struct sequence, namedtuple, dataclass) before '
+              'the abstract Mapping / Sequence tests they also satisfy',
+              'AutoEntry tests %s before %s: a %s is a %s too and would get the generic entry class'
+              % ((viol[0][1], viol[0][0], viol[0][0], viol[0][1]) if viol else ('', '', '', '')), mod.loc(fn))
